@@ -83,7 +83,10 @@ class Types:
 
 
 COQ_RESERVED = {'end', 'match', 'with', 'in', 'let', 'fun', 'if', 'then', 'else', 'return', 'as', 'at',
-                'fix', 'forall', 'exists', 'Type', 'Set', 'Prop', 'using', 'where', 'for', 'cofix'}
+                'fix', 'forall', 'exists', 'Type', 'Set', 'Prop', 'using', 'where', 'for', 'cofix',
+                # names of the Coq library the generated text uses
+                'length', 'nth', 'map', 'app', 'seq', 'fst', 'snd', 'hd', 'tl', 'repeat', 'firstn', 'skipn',
+                'filter', 'fold_left', 'combine', 'upd', 'slice', 'splice', 'negb', 'true', 'false', 'tt', 'None', 'Some'}
 
 
 def cname(py):
